@@ -94,6 +94,9 @@ def run(ctx):
         if not isinstance(r, int):
             raise AnalysisError("u_value_exterior: cannot resolve Rsi for tilt %s (%s)" % (tv, r))
         got = blocks[r]
+        if got[0] != "k":
+            # the resistance may come through helpers that map the tilt class to a heat-flow direction and that to a constant
+            got = strip(TB.resolve_helpers(prog, got, lambda n_, tv=tv: tilt_atom(TILTS)(strip(n_), tv)))
         val = got[1] if got[0] == "k" else None
         if val is not None and float(val) == float(RSI[tv]):
             ctx.ok("c06.table", key, "Rsi(%s) = %s" % (tv, val), ue.loc())
@@ -102,7 +105,9 @@ def run(ctx):
     rns = [unwrap_some(sc._rw(rn)) for _, rn in returned_nodes(ue.body) if strip(sc._rw(rn))[0] == "agg"]
     ctx.require(len(rns) == 1, "u_value_exterior: expected one Some(..) return")
     lm = LeafMap({"rsi": "Rsi"}, [(r"^resistance\?$", "R")])
-    compare(ctx, "c06.formula", "c06.formula|u_value_exterior", rns[0], "r2(1 / (R + Rsi + 0.04))", lm, None, ue.loc(), "U (air contact)")
+    # the surface resistance is whatever the table rule above has just decided (a local `rsi`, or the helper expression it is defined by)
+    rsi_nodes = [(strip(n_), "Rsi") for n_ in blocks.values() if strip(n_)[0] == "call"]
+    compare(ctx, "c06.formula", "c06.formula|u_value_exterior", rns[0], "r2(1 / (R + Rsi + 0.04))", lm, None, ue.loc(), "U (air contact)", nodemap=rsi_nodes)
     others = [strip(sc._rw(rn)) for _, rn in returned_nodes(ue.body) if strip(sc._rw(rn))[0] != "agg"]
     if len(others) == 1 and "from_residual" in show(others[0]) and "resistance" in show(others[0]):
         ctx.ok("c06.none", "c06.none|u_value_exterior", "returns None when the resistance is None (`resistance?`)", ue.loc())
@@ -144,7 +149,21 @@ def run(ctx):
     for tc, nc, tv in itertools.product((True, False), (True, False), TILTS):
         nrows += 1
 
+        def in_interior_arm(x):
+            # this table is the INTERIOR arm of the dispatch: helpers that look at the wall's own boundary type are resolved with it
+            x = strip(x)
+            if x[0] == "call" and short_callee(x[1]) in ("eq", "ne") and len(x[2]) == 2:
+                for a_, b_ in ((strip(x[2][0]), strip(x[2][1])), (strip(x[2][1]), strip(x[2][0]))):
+                    if (leaf_name(a_) or "").endswith(".bounds") and b_[0] == "agg" and "::" in b_[1]:
+                        r_ = (b_[1].split("::")[-1] == "INTERIOR") == (short_callee(x[1]) == "eq")
+                        return "1" if r_ else "0"
+            if x[0] == "discr" and (leaf_name(strip(x[1])) or "").endswith(".bounds"):
+                bts = [v["name"] for v in prog.adt("bemodel::types::common::BoundaryType")["variants"]]
+                return str(bts.index("INTERIOR"))
+            return None
+
         def atom(n, tc=tc, nc=nc, tv=tv):
+            n = strip(TB.resolve_helpers(prog, strip(n), in_interior_arm))
             t = tilt_atom(TILTS)(n, tv)
             if t is not None:
                 return t
